@@ -420,6 +420,14 @@ def rule_model_conversion(prog, rep):
     except Flow as fl:
         r.bad("model|runs", f"the conversion stops with {fl.value} on the model input", where)
         return
+    # every PQR atom is listed: a coordinate record the reader cannot make sense of must stop the conversion, not shorten the atom block
+    recs_ = [ln for ln, w in PQR_MODEL_LINES if w is not None]
+    try:
+        got_bad = run.call_function("io.py", "read_pqr", [recs_[0], "ATOM      9  CA  BAD A   9      12.3X5  41.153   3.834 -0.3200 2.0000\n", recs_[1]])
+        r.bad("model|unreadable-atom-is-loud", f"a record with the coordinate '12.3X5' is skipped: read_pqr returns {len(got_bad) if isinstance(got_bad, list) else got_bad} "
+              "atoms for three coordinate lines, so the cube would list fewer atoms than the PQR file has", where)
+    except Flow:
+        r.ok("model|unreadable-atom-is-loud", "a coordinate record that cannot be parsed stops the conversion with an error", where)
     text = "".join(str(x) for x in written)
     lines = text.split("\n")
     want_atoms = [w for _, w in PQR_MODEL_LINES if w is not None]
